@@ -180,7 +180,7 @@ func offsetAssignSites() []string {
 }
 
 func genProtocol() *leanFile {
-	l := newLean("Protocol", "/repo/server/partition.go, replicator.go, metadata.go, commitlog/commitlog.go")
+	l := newLean("Protocol", "/repo/server/partition.go, replicator.go, metadata.go, commitlog/commitlog.go", "Liftbridge.BExp")
 
 	// ---- leader's view of replica offsets: max-only, reset sites ----
 	l.cmp("updateOffsetCmp", partitionGo, "replica.updateLatestOffset", "offset ? r.offset", 0, "gt")
@@ -332,5 +332,8 @@ func genProtocol() *leanFile {
 	l.cmp("expandLeaderCmp", metadataGo, "metadataAPI.ExpandISR", "req.Leader ? leader", 0, "ne")
 	l.cmp("expandEpochCmp", metadataGo, "metadataAPI.ExpandISR", "req.LeaderEpoch ? epoch", 0, "ne")
 	l.cmp("applyIdempotentCmp", metadataGo, "metadataAPI.ChangeLeader", "partition.GetEpoch() ? epoch", 0, "ge")
+
+	// ---- ISR membership rule, timers, fetch fields, term fence (gen_protocol_isr.go) ----
+	genProtocolISR(l)
 	return l
 }
